@@ -2,6 +2,8 @@ import AcraModel.Envelope.SafeExamples
 import AcraModel.Envelope.SafeBound
 import AcraModel.Envelope.SafeCompatSame
 import AcraModel.Crypto.ShimLaws
+import AcraModel.Envelope.TranslatorLemmas
+import AcraModel.Props.C09
 /-!
 # C03 — any modification of a protected value is detected, never mis-decrypted
 
@@ -421,6 +423,203 @@ theorem reveal_no_misdecrypt (c : CryptoOps) (hs : SealLaws c) (hc : SealCommit 
       · obtain ⟨ps, _, priv, _, hdec⟩ := decryptKind_struct_ok hk
         rw [(struct_no_misdecrypt c hs hc priv [] internal m k0 ctx0 m0 n0 ct0 hdec hdat h0).1]
 
+/-! ## E'. a swapped search hash
+
+A searchable value is stored as `hash ++ envelope` (`hash` = function number + HMAC of the plaintext).
+The searchable reveal entry points – `DecryptRotatedSearchableAcraStruct` / `…AcraBlock`
+(`decryptSearchableStruct/Block`), AcraTranslator `DecryptSearchable` / `DecryptSymSearchable`
+(`Searchable.translatorDecrypt`, the core of `Translator.decryptSearchableWith`) and the two-pass
+`hmac.Processor` around the envelope detector in the SQL proxies (`Searchable.column`) – re-verify the
+hash after decryption. The theorems below are derived from C09's `bad_index_not_valid*`. -/
+
+section SearchableHash
+open AcraModel.Searchable AcraModel.Envelope.Translator
+
+/-- Generic form (`NewHashProcessor` around any decrypting function `proc`). The envelope `e` is intact
+and `proc` reveals `m` from it; the 33 bytes in front of it were replaced by ANY well-formed hash `h'`
+(known function number, 32 more bytes – so that it is cut off as a hash). Then: whatever is accepted is
+exactly `m`, and that happens only if `h'` is the genuine index of `m`; any other `h'` makes the reveal
+fail (an error – not a panic, not another plaintext). -/
+theorem searchable_hash_checked (c : CryptoOps) (hl : HashLen c) (k : Bytes) (proc : Bytes → Out Bytes)
+    (h' e m : Bytes) (hwf : extractHash (h' ++ e) = some h') (hdec : proc e = .ok m) :
+    (∀ p, hashProcessor c (some k) proc (h' ++ e) = .ok p → p = m ∧ h' = generateHMAC c k m) ∧
+    (h' ≠ generateHMAC c k m → hashProcessor c (some k) proc (h' ++ e) = .err) ∧
+    (h' = generateHMAC c k m → hashProcessor c (some k) proc (h' ++ e) = .ok m) := by
+  have hdrop : (h' ++ e).drop h'.length = e := by simp
+  have h1 : ∀ p, hashProcessor c (some k) proc (h' ++ e) = .ok p → p = m ∧ h' = generateHMAC c k m := by
+    intro p hok
+    obtain ⟨hh, hp⟩ := C09.bad_index_not_valid c hl k proc (h' ++ e) h' p hwf hok
+    rw [hdrop, hdec] at hp
+    cases hp
+    exact ⟨rfl, hh⟩
+  have hval : hashProcessor c (some k) proc (h' ++ e) = if isEqual c (some k) h' m then .ok m else .err := by
+    unfold hashProcessor
+    simp only [hwf, hdrop, hdec]
+  refine ⟨h1, ?_, ?_⟩
+  · intro hne
+    cases hr : hashProcessor c (some k) proc (h' ++ e) with
+    | ok p => exact absurd (h1 p hr).2 hne
+    | err => rfl
+    | panic => rw [hval] at hr; split at hr <;> cases hr
+  · intro heq
+    rw [hval, (isEqual_iff c hl k m hwf).mpr heq]
+    rfl
+
+/-- **A swapped search hash makes every searchable reveal fail.** `e` is an intact envelope of `m`
+(each entry point's own decrypt step reveals `m` from it) and `h'` any well-formed hash other than the
+genuine index of `m` put in front of it. Then
+* the library calls `DecryptRotatedSearchableAcraStruct` / `DecryptRotatedSearchableAcraBlock` return an error,
+* AcraTranslator's `DecryptSearchable` / `DecryptSymSearchable` answer with an error, whether the hash
+  is passed as the separate argument or concatenated in front of the envelope,
+* the SQL proxies' chain `hmacProcessor → detector → hmacProcessor` hands the client the STORED bytes
+  unchanged (never the decrypted ones) and keeps no state for the next column. -/
+theorem searchable_hash_swap (c : CryptoOps) (hl : HashLen c) (k : Bytes) (h' e m : Bytes)
+    (hwf : extractHash (h' ++ e) = some h') (hne : h' ≠ generateHMAC c k m) :
+    (∀ privs ctx, decryptStructRotated c ctx e privs = .ok m → decryptSearchableStruct c k privs ctx (h' ++ e) = .err) ∧
+    (∀ keys ctx, decryptWholeBlock c keys ctx e = .ok m → decryptSearchableBlock c k keys ctx (h' ++ e) = .err) ∧
+    (∀ kv kd, decryptWithHandler c kv kd e = .ok m → Searchable.translatorDecrypt c (some k) kv kd (h' ++ e) = .err) ∧
+    (∀ (st : Store) id kd, st.hmac id = some k → decryptWithHandler c (st.keys id) kd e = .ok m →
+      (decryptSearchableWith kd c st e (some h') (some id) none).1 = .err ∧
+      (decryptSearchableWith kd c st (h' ++ e) none (some id) none).1 = .err) ∧
+    (∀ det s hit, matchEnvelope e = .ok true → det e = .ok m hit →
+      column c (some k) det s (h' ++ e) = .ok (PState.init, some (h' ++ e))) := by
+  have hdrop : (h' ++ e).drop h'.length = e := by simp
+  have htr : ∀ kv kd, decryptWithHandler c kv kd e = .ok m → Searchable.translatorDecrypt c (some k) kv kd (h' ++ e) = .err := by
+    intro kv kd hd
+    cases hr : Searchable.translatorDecrypt c (some k) kv kd (h' ++ e) with
+    | err => rfl
+    | ok p =>
+      have hh := C09.bad_index_not_valid_translator c hl k kv kd (h' ++ e) h' p hwf hr
+      obtain ⟨hp, _⟩ := translatorDecrypt_checked c (some k) kv kd (h' ++ e) h' p hwf hr
+      rw [hdrop, hd] at hp
+      cases hp
+      exact absurd hh hne
+    | panic =>
+      unfold Searchable.translatorDecrypt extractHashAndData at hr
+      simp only [hwf, hdrop, hd] at hr
+      split at hr <;> cases hr
+  refine ⟨?_, ?_, htr, ?_, ?_⟩
+  · intro privs ctx hd
+    exact (searchable_hash_checked c hl k _ h' e m hwf hd).2.1 hne
+  · intro keys ctx hd
+    exact (searchable_hash_checked c hl k _ h' e m hwf hd).2.1 hne
+  · intro st id kd hk hd
+    rw [decryptSearchableWith_fst, decryptSearchableWith_fst, hk]
+    exact ⟨htr _ kd hd, htr _ kd hd⟩
+  · intro det s hit hm hd
+    exact (C09.bad_index_not_valid_proxy c hl k det s (h' ++ e) h' m hit hwf (by rw [hdrop]; exact hm)
+      (by rw [hdrop]; exact hd)).1 hne
+
+/-- **The hash of value A in front of the envelope of value B.** If HMAC under the client's key does
+not collide on the two values at hand (finite hypothesis `NoColl` on `{a, m}` – not injectivity on all
+byte strings, which 32-byte MACs cannot have), the index of `a ≠ m` in front of an envelope of `m` is a
+swapped hash in the sense of `searchable_hash_swap`: every searchable reveal entry point fails (the
+transparent path returns the stored bytes). -/
+theorem searchable_hash_of_other_value (c : CryptoOps) (hl : HashLen c) (k a e m : Bytes)
+    (hnc : NoColl c k (fun v => v = a ∨ v = m)) (ham : a ≠ m) :
+    extractHash (generateHMAC c k a ++ e) = some (generateHMAC c k a) ∧
+    generateHMAC c k a ≠ generateHMAC c k m ∧
+    (∀ kv kd, decryptWithHandler c kv kd e = .ok m →
+      Searchable.translatorDecrypt c (some k) kv kd (generateHMAC c k a ++ e) = .err) ∧
+    (∀ keys ctx, decryptWholeBlock c keys ctx e = .ok m →
+      decryptSearchableBlock c k keys ctx (generateHMAC c k a ++ e) = .err) ∧
+    (∀ privs ctx, decryptStructRotated c ctx e privs = .ok m →
+      decryptSearchableStruct c k privs ctx (generateHMAC c k a ++ e) = .err) ∧
+    (∀ det s hit, matchEnvelope e = .ok true → det e = .ok m hit →
+      column c (some k) det s (generateHMAC c k a ++ e) = .ok (PState.init, some (generateHMAC c k a ++ e))) := by
+  have hwf := extractHash_stored c hl k a e
+  have hne : generateHMAC c k a ≠ generateHMAC c k m := fun h =>
+    ham (hnc a m (Or.inl rfl) (Or.inr rfl) ((generateHMAC_eq_iff c k a m).mp h))
+  obtain ⟨h1, h2, h3, _, h5⟩ := searchable_hash_swap c hl k (generateHMAC c k a) e m hwf hne
+  exact ⟨hwf, hne, h3, h2, h1, h5⟩
+
+/-- **Hash function byte changed / hash cut short.** When the bytes in front of the envelope do not
+start with a registered hash function number, or fewer than 33 bytes are there at all, nothing is cut
+off as a hash: AcraTranslator's searchable decrypts answer with an error at once, for any keys. -/
+theorem searchable_hash_unknown_function (c : CryptoOps) (hkey : Option Bytes) (kv : KeyView) (kd : Kind) (d : Bytes)
+    (h : d.length < hashSize ∨ ∃ b rest, d = b :: rest ∧ knownFunc b = false) :
+    Searchable.translatorDecrypt c hkey kv kd d = .err := by
+  have hx : extractHash d = none := by
+    unfold extractHash
+    cases d with
+    | nil => rfl
+    | cons b rest =>
+      simp only
+      rcases h with h | ⟨b', rest', hd, hk⟩
+      · by_cases hk : knownFunc b = true
+        · have : rest.length < macLen := by
+            simp only [List.length_cons, hashSize_eq] at h
+            rw [macLen_eq]; omega
+          simp [hk, this]
+        · simp [hk]
+      · cases hd
+        simp [hk]
+  unfold Searchable.translatorDecrypt extractHashAndData
+  rw [hx]
+
+/-- Whatever a searchable reveal entry point accepts (any input, damaged in any way) carries in front
+the genuine index of exactly the plaintext handed out, and the rest of the input decrypts to that
+plaintext – the hash can never "validate" different content. (C09's `bad_index_not_valid*` for the
+library calls and the translator, restated next to the other C03 acceptance theorems.) -/
+theorem searchable_accept_is_genuine (c : CryptoOps) (hl : HashLen c) (k : Bytes) (data h p : Bytes)
+    (he : extractHash data = some h) :
+    (∀ privs ctx, decryptSearchableStruct c k privs ctx data = .ok p →
+      h = generateHMAC c k p ∧ decryptStructRotated c ctx (data.drop h.length) privs = .ok p) ∧
+    (∀ keys ctx, decryptSearchableBlock c k keys ctx data = .ok p →
+      h = generateHMAC c k p ∧ decryptWholeBlock c keys ctx (data.drop h.length) = .ok p) ∧
+    (∀ kv kd, Searchable.translatorDecrypt c (some k) kv kd data = .ok p →
+      h = generateHMAC c k p ∧ decryptWithHandler c kv kd (data.drop h.length) = .ok p) :=
+  ⟨fun _ _ hok => C09.bad_index_not_valid c hl k _ data h p he hok,
+   fun _ _ hok => C09.bad_index_not_valid c hl k _ data h p he hok,
+   fun kv kd hok => ⟨C09.bad_index_not_valid_translator c hl k kv kd data h p he hok,
+     (translatorDecrypt_checked c (some k) kv kd data h p he hok).1⟩⟩
+
+/-- **The genuine hash pins the plaintext.** Take ANY input that still starts with the genuine index of `m`
+(the envelope behind it may have been flipped, truncated, extended, re-typed or replaced by another
+value's envelope): whatever a searchable reveal entry point accepts has the same HMAC as `m` – so, HMAC
+not colliding on the two values at hand, it IS `m`. A spliced envelope of another value behind the hash of
+`m` is therefore rejected by the hash check even where the envelope itself is intact. -/
+theorem searchable_hash_pins_plaintext (c : CryptoOps) (hl : HashLen c) (k m rest p : Bytes)
+    (hnc : NoColl c k (fun v => v = p ∨ v = m)) :
+    (∀ privs ctx, decryptSearchableStruct c k privs ctx (generateHMAC c k m ++ rest) = .ok p → p = m) ∧
+    (∀ keys ctx, decryptSearchableBlock c k keys ctx (generateHMAC c k m ++ rest) = .ok p → p = m) ∧
+    (∀ kv kd, Searchable.translatorDecrypt c (some k) kv kd (generateHMAC c k m ++ rest) = .ok p → p = m) := by
+  have he := extractHash_stored c hl k m rest
+  have hpin : generateHMAC c k m = generateHMAC c k p → p = m := fun h =>
+    hnc p m (Or.inl rfl) (Or.inr rfl) ((generateHMAC_eq_iff c k p m).mp h.symm)
+  exact ⟨fun _ _ hok => hpin (C09.bad_index_not_valid c hl k _ _ _ p he hok).1,
+         fun _ _ hok => hpin (C09.bad_index_not_valid c hl k _ _ _ p he hok).1,
+         fun kv kd hok => hpin (C09.bad_index_not_valid_translator c hl k kv kd _ _ p he hok)⟩
+
+/-- no searchable reveal entry point panics where its decrypt step does not: the hash handling itself
+(cutting off, comparing) has no failing slice or index -/
+theorem searchable_reveal_no_panic (c : CryptoOps) (hkey : Option Bytes) (kv : KeyView) (kd : Kind) (d : Bytes) :
+    Searchable.translatorDecrypt c hkey kv kd d ≠ .panic ∧
+    (∀ proc : Bytes → Out Bytes, (∀ x, proc x ≠ .panic) → hashProcessor c hkey proc d ≠ .panic) := by
+  constructor
+  · unfold Searchable.translatorDecrypt
+    cases extractHashAndData d with
+    | none => simp
+    | some hc =>
+      obtain ⟨h, container⟩ := hc
+      simp only
+      cases hd : decryptWithHandler c kv kd container with
+      | ok plain => simp only; split <;> simp
+      | err => simp
+      | panic => exact absurd hd (decryptWithHandler_ne_panic c kv kd container)
+  · intro proc hp
+    unfold hashProcessor
+    cases extractHash d with
+    | none => exact hp d
+    | some h =>
+      simp only
+      cases hd : proc (d.drop h.length) with
+      | ok plain => simp only; split <;> simp
+      | err => simp
+      | panic => exact absurd hd (hp _)
+
+end SearchableHash
+
 /-! ## F. non-vacuity
 
 Concrete values live in `Envelope/SafeExamples.lean`: `exBlock` is a genuine AcraBlock of `exMsg = [1,2,3]`
@@ -447,6 +646,26 @@ example : SealLaws boxOps ∧ SealCommit boxOps ∧ MsgLaws boxOps := ⟨Box.sea
 example : SealLaws shimOps ∧ MsgLaws shimOps := ⟨shim_sealLaws, shim_msgLaws⟩
 /-- the bundle of the output bounds in group C (no commitment there) -/
 example : SealLaws shimOps ∧ SealLen shimOps := ⟨shim_sealLaws, shim_sealLen⟩
+
+/-- group E' (swapped search hash) is applicable: an instance with 32-byte MACs (`C09.lenOps`, Box
+sealing), a genuine serialized AcraBlock of `exMsg` that the block handler reveals, the index of the
+other value `exMsg2` as well-formed swapped hash, and no collision between the two values -/
+example :
+    let e := unwrapOr (protect C09.lenOps exKv .block exMsg exRnd)
+    let h' := Searchable.generateHMAC C09.lenOps [1] exMsg2
+    HashLen C09.lenOps ∧ Searchable.extractHash (h' ++ e) = some h' ∧ h' ≠ Searchable.generateHMAC C09.lenOps [1] exMsg ∧
+    decryptWithHandler C09.lenOps exKv .block e = .ok exMsg ∧
+    Searchable.decryptWholeBlock C09.lenOps [exKey2, exKey] [] (e.drop 12) = .ok exMsg ∧
+    Searchable.translatorDecrypt C09.lenOps (some [1]) exKv .block (h' ++ e) = .err ∧
+    Searchable.translatorDecrypt C09.lenOps (some [1]) exKv .block (Searchable.generateHMAC C09.lenOps [1] exMsg ++ e) = .ok exMsg ∧
+    Searchable.NoColl C09.lenOps [1] (fun v => v = exMsg2 ∨ v = exMsg) := by
+  refine ⟨C09.lenOps_hashLen, by decide, by decide, by decide, by decide, by decide, by decide, ?_⟩
+  intro a b ha hb h
+  rcases ha with rfl | rfl <;> rcases hb with rfl | rfl
+  · rfl
+  · exact absurd h (by decide)
+  · exact absurd h (by decide)
+  · rfl
 
 /-- decoders: both an error and a success occur (block family) -/
 example : extractBlock [] = .err ∧ extractBlock (exBlock ++ [1, 2]) = .ok (175, exBlock) := by decide
